@@ -9,7 +9,8 @@ SHAPES = [(2, 1), (3, 2), (4, 3), (2, 6), (1, 2), (5, 4), (3, 5), (6, 2), (1, 1)
 def run(tier):
     return arrayprop.standard_run(
         "C01", tier, profiles=["c01"], nquick=24, nthorough=240, steps=(24, 48), shapes=SHAPES,
-        directed_jobs=lambda s0: [(s0 + k, dict(nd=2, np=1, copies=2), "directed-fixlinks", 0, directed.fix_links) for k in (1, 2)],
+        directed_jobs=lambda s0: [(s0 + k, dict(nd=2, np=1, copies=2), "directed-fixlinks", 0, directed.fix_links) for k in (1, 2)] +
+                                 [(s0 + 3, dict(nd=2, np=1, copies=2, inomode=True), "directed-twins-swapped", 0, directed.twins_swapped_fix)],
         rule="each history builds a fragmented array by adds/deletes/touches and several syncs, ends in an error-free sync, "
              "then damages at most NP devices (disk lost, files deleted, blocks corrupted with unchanged stamp, parity lost "
              "or corrupted) or at most NP blocks of every stripe, runs fix and check; TLC evaluates C01_Fix on the real "
